@@ -481,6 +481,11 @@ def entry(eid, rname):
     ent = dict(_BY_ID[eid])
     cls = _recv_class(rname)
     name = ent["name"]
+    if name.split(":")[0] == "fn":
+        ent["owner"] = "quimb.tensor"
+        ent["plain"] = name
+        ent["inplace"] = None
+        return ent
     if name.split(":")[0] in ("q", "p", "mut"):
         ent["owner"] = _owner(cls, name.split(":", 1)[1])
         ent["plain"] = name
@@ -1209,3 +1214,69 @@ U("mut:add_tag", ALLNETS, lambda x, H: (("NEWTAG",), {}), "u")
 U("mut:drop_tags", ALLNETS, lambda x, H: (([_tg(x)],), {}), "u-first-tag")
 U("mut:distribute_exponent", ALLNETS, None, "u")
 U("q:contract", "N.loop N.multi N.struct N.tree N.left N.braket N.op G.vec G.op M.mps3 M.mps4 M.mpo3 M.submpo P.peps P.tn2d P.norm Q.peps3d Q.tn3d", lambda x, H: ((), {"output_inds": tuple(sorted(x.outer_inds(), key=str))}), "u-all-sorted-out")
+
+
+# --------------------------------------------------------------------------- #
+#   compress / canonize family: every documented value of reduced= / absorb=  #
+#   / mode= (the non-default branches align the new factors by label one by   #
+#   one: a seeded change dropping one `transpose_like_` was only visible with  #
+#   reduced=False and a right tensor whose bond is not its first axis)        #
+# --------------------------------------------------------------------------- #
+
+group("C")
+REDUCED = (True, False, "left", "right", "lazy")
+ABSORB = ("both", "left", "right", None)
+
+
+def _tb(H):
+    # right tensor: the bond 'c' is stored in the MIDDLE, all sizes coincide
+    # with a neighbour's so a misplaced axis is not always a shape error
+    return H.tensor((2, 2, 3), ("d", "c", "e"), ("Z",), "ctb")
+
+
+for _r in REDUCED:
+    for _a in ABSORB:
+        D(
+            "fn:tensor_compress_bond",
+            "T.abc",
+            (lambda r, a: lambda x, H: ((_tb(H),), {"reduced": r, "absorb": a, "cutoff": 1e-10}))(_r, _a),
+            "reduced=%r,absorb=%r" % (_r, _a),
+            "dense",
+            why=GAUGE_WHY,
+        )
+D("fn:tensor_compress_bond", "T.abc", lambda x, H: ((_tb(H),), {"reduced": False, "max_bond": 1, "cutoff": 0.0}), "reduced=False,chi1", "dense", why=GAUGE_WHY)
+D("fn:tensor_compress_bond", "T.abc", lambda x, H: ((_tb(H),), {"reduced": True, "max_bond": 1, "cutoff": 0.0, "absorb": "left"}), "reduced=True,chi1,left", "dense", why=GAUGE_WHY)
+for _a in ("right", "left", "both"):
+    D("fn:tensor_canonize_bond", "T.abc", (lambda a: lambda x, H: ((_tb(H),), {"absorb": a}))(_a), "absorb=%r" % (_a,), "dense", why=GAUGE_WHY)
+D("fn:tensor_balance_bond", "T.abc", lambda x, H: ((_tb(H),), {}), "default", "dense", why="gauge")
+
+for _r in REDUCED:
+    for _a in ("both", "left", "right"):
+        D(
+            "mut:compress_between",
+            "N.loop N.multi M.mps4",
+            (lambda r, a: lambda x, H: ((_tg(x, 0), _tg(x, 1)), {"reduced": r, "absorb": a, "cutoff": 1e-10}))(_r, _a),
+            "reduced=%r,absorb=%r" % (_r, _a),
+            "dense",
+            why=GAUGE_WHY,
+        )
+    D(
+        "compress_all",
+        "N.loop N.tree M.mps4 G.vec P.peps",
+        (lambda r: lambda x, H: ((), {"mode": "basic", "reduced": r, "cutoff": 1e-10}))(_r),
+        "basic,reduced=%r" % (_r,),
+        "dense spelling-dense" if _r == "lazy" else "dense",
+        why=GAUGE_WHY + ("; 'lazy' uses the iterative isvd with a random start vector: spellings compared as labelled wholes" if _r == "lazy" else ""),
+    )
+    D("compress_all_tree", "N.tree M.mps4", (lambda r: lambda x, H: ((), {"reduced": r, "cutoff": 1e-10}))(_r), "reduced=%r" % (_r,), "dense spelling-dense" if _r == "lazy" else "dense", why=GAUGE_WHY)
+    D("compress_all_1d", "N.multi M.mps4", (lambda r: lambda x, H: ((), {"reduced": r, "cutoff": 1e-10}))(_r), "reduced=%r" % (_r,), "dense spelling-dense" if _r == "lazy" else "dense", why=GAUGE_WHY)
+    D("compress_all_1d", "M.mps4", (lambda r: lambda x, H: ((), {"reduced": r, "canonize": False, "cutoff": 1e-10}))(_r), "nocanon,reduced=%r" % (_r,), "dense spelling-dense" if _r == "lazy" else "dense", why=GAUGE_WHY)
+    D("mut:compress", "M.mps4 M.mps3", (lambda r: lambda x, H: ((), {"reduced": r, "cutoff": 1e-10}))(_r), "1d,reduced=%r" % (_r,), "dense", why=GAUGE_WHY)
+D("compress_all", "N.loop M.mps4", lambda x, H: ((), {"canonize": False, "mode": "basic", "reduced": False, "cutoff": 1e-10}), "basic,nocanon,reduced=False", "dense", why=GAUGE_WHY)
+D("compress_all", "N.tree M.mps4", lambda x, H: ((), {"mode": "virtual-tree", "tree_gauge_distance": 2, "cutoff": 1e-10}), "virtual-tree,d2", "dense", why=GAUGE_WHY)
+D("compress_all_simple", "N.loop N.tree M.mps4", lambda x, H: ((), {"max_iterations": 3, "cutoff": 1e-10, "max_bond": 8}), "maxbond8", "dense", why=GAUGE_WHY)
+for _f in ("left", "right", "flat", 1):
+    D("mut:compress", "M.mps4", (lambda f: lambda x, H: ((), {"form": f, "reduced": False, "cutoff": 1e-10}))(_f), "1d,form=%r,reduced=False" % (_f,), "dense", why=GAUGE_WHY)
+for _a in ("right", "left", "both"):
+    D("mut:canonize_between", "N.loop N.tree M.mps4", (lambda a: lambda x, H: ((_tg(x, 0), _tg(x, 1)), {"absorb": a}))(_a), "absorb=%r" % (_a,), "dense", why=GAUGE_WHY)
+    D("canonize_around", "N.tree M.mps4", (lambda a: lambda x, H: ((_tg(x, 0),), {"absorb": a}))(_a), "c-absorb=%r" % (_a,), "dense", why=GAUGE_WHY)
